@@ -78,12 +78,12 @@ func (t *Template) newAction(pos Pos, line int) *ActionNode {
 	return &ActionNode{NodeBase: NodeBase{TemplatePath: t.Name, NodeType: NodeAction, Pos: pos, Line: line}}
 }
 
-func (t *Template) newCommand(pos Pos) *CommandNode {
-	return &CommandNode{NodeBase: NodeBase{TemplatePath: t.Name, NodeType: NodeCommand, Pos: pos}}
+func (t *Template) newCommand(pos Pos, line int) *CommandNode {
+	return &CommandNode{NodeBase: NodeBase{TemplatePath: t.Name, NodeType: NodeCommand, Pos: pos, Line: line}}
 }
 
-func (t *Template) newNil(pos Pos) *NilNode {
-	return &NilNode{NodeBase: NodeBase{TemplatePath: t.Name, NodeType: NodeNil, Pos: pos}}
+func (t *Template) newNil(pos Pos, line int) *NilNode {
+	return &NilNode{NodeBase: NodeBase{TemplatePath: t.Name, NodeType: NodeNil, Pos: pos, Line: line}}
 }
 
 func (t *Template) newField(pos Pos, line int, ident string) *FieldNode {
@@ -94,12 +94,12 @@ func (t *Template) newChain(pos Pos, line int, node Node) *ChainNode {
 	return &ChainNode{NodeBase: NodeBase{TemplatePath: t.Name, NodeType: NodeChain, Pos: pos, Line: line}, Node: node}
 }
 
-func (t *Template) newBool(pos Pos, true bool) *BoolNode {
-	return &BoolNode{NodeBase: NodeBase{TemplatePath: t.Name, NodeType: NodeBool, Pos: pos}, True: true}
+func (t *Template) newBool(pos Pos, line int, true bool) *BoolNode {
+	return &BoolNode{NodeBase: NodeBase{TemplatePath: t.Name, NodeType: NodeBool, Pos: pos, Line: line}, True: true}
 }
 
-func (t *Template) newString(pos Pos, orig, text string) *StringNode {
-	return &StringNode{NodeBase: NodeBase{TemplatePath: t.Name, NodeType: NodeString, Pos: pos}, Quoted: orig, Text: text}
+func (t *Template) newString(pos Pos, line int, orig, text string) *StringNode {
+	return &StringNode{NodeBase: NodeBase{TemplatePath: t.Name, NodeType: NodeString, Pos: pos, Line: line}, Quoted: orig, Text: text}
 }
 
 func (t *Template) newEnd(pos Pos) *endNode {
@@ -146,8 +146,8 @@ func (t *Template) newCatch(pos Pos, line int, errVar *IdentifierNode, list *Lis
 	return &catchNode{NodeBase: NodeBase{TemplatePath: t.Name, NodeType: nodeCatch, Pos: pos, Line: line}, Err: errVar, List: list}
 }
 
-func (t *Template) newNumber(pos Pos, text string, typ itemType) (*NumberNode, error) {
-	n := &NumberNode{NodeBase: NodeBase{TemplatePath: t.Name, NodeType: NodeNumber, Pos: pos}, Text: text}
+func (t *Template) newNumber(pos Pos, line int, text string, typ itemType) (*NumberNode, error) {
+	n := &NumberNode{NodeBase: NodeBase{TemplatePath: t.Name, NodeType: NodeNumber, Pos: pos, Line: line}, Text: text}
 	// todo: optimize
 	switch typ {
 	case itemCharConstant:
